@@ -2,10 +2,264 @@
 From Verif Require Import Base Config.
 Open Scope N_scope.
 
-(* a WAF serving transactions one after the other: every transaction sees the same rule list *)
-Lemma serve_local : forall rx rules rqs1 rq rqs2,
-  nth (length rqs1) (cf_serve rx rules (rqs1 ++ rq :: rqs2)) ([], None) = cf_outcome rx rules rq.
+(* ================= generic helpers ================= *)
+
+Lemma filter_filter {A} (p q : A -> bool) l :
+  filter p (filter q l) = filter (fun x => q x && p x) l.
 Proof.
-  intros. unfold cf_serve. rewrite map_app. cbn [map].
-  rewrite app_nth2; rewrite map_length; [|lia]. rewrite Nat.sub_diag. reflexivity.
+  induction l as [|x l IH]; cbn [filter]; [reflexivity|].
+  destruct (q x); cbn [filter andb]; [destruct (p x)|]; rewrite IH; reflexivity.
+Qed.
+
+Lemma filter_ext' {A} (p q : A -> bool) l : (forall x, In x l -> p x = q x) -> filter p l = filter q l.
+Proof.
+  induction l as [|x l IH]; intro H; cbn [filter]; [reflexivity|].
+  rewrite (H x (or_introl eq_refl)), IH; [reflexivity|]. intros y Hy. apply H. right; exact Hy.
+Qed.
+
+Lemma filter_all {A} (p : A -> bool) l : (forall x, In x l -> p x = true) -> filter p l = l.
+Proof.
+  induction l as [|x l IH]; intro H; cbn [filter]; [reflexivity|].
+  rewrite (H x (or_introl eq_refl)), IH; [reflexivity|]. intros y Hy; apply H; right; exact Hy.
+Qed.
+
+Lemma map_filter_comm {A B} (f : A -> B) (p : B -> bool) (q : A -> bool) l :
+  (forall x, In x l -> p (f x) = q x) -> filter p (map f l) = map f (filter q l).
+Proof.
+  induction l as [|x l IH]; intro H; cbn [map filter]; [reflexivity|].
+  rewrite (H x (or_introl eq_refl)). rewrite IH by (intros y Hy; apply H; right; exact Hy).
+  destruct (q x); reflexivity.
+Qed.
+
+Lemma map_ext_in' {A B} (f g : A -> B) l : (forall x, In x l -> f x = g x) -> map f l = map g l.
+Proof. apply map_ext_in. Qed.
+
+(* ================= compile: closed form and unique non-zero ids ================= *)
+
+Fixpoint uniq (rs : list crule) : Prop :=
+  match rs with
+  | [] => True
+  | r :: t => (cr_id r = 0 \/ has_id (cr_id r) t = false) /\ uniq t
+  end.
+
+Lemma has_id_app id a b : has_id id (a ++ b) = has_id id a || has_id id b.
+Proof. unfold has_id. apply existsb_app. Qed.
+
+Lemma has_id_false_in id rs : has_id id rs = false -> forall r, In r rs -> cr_id r <> id.
+Proof.
+  unfold has_id. intros H r Hr E.
+  assert (existsb (fun r => cr_id r =? id) rs = true) as X.
+  { apply existsb_exists. exists r. split; [exact Hr|]. apply N.eqb_eq; exact E. }
+  congruence.
+Qed.
+
+Lemma has_id_in id rs : has_id id rs = true -> exists r, In r rs /\ cr_id r = id.
+Proof.
+  unfold has_id. intro H. apply existsb_exists in H as [r [Hr E]]. exists r. split; [exact Hr|].
+  apply N.eqb_eq; exact E.
+Qed.
+
+Lemma uniq_snoc acc r :
+  uniq (acc ++ [r]) <-> uniq acc /\ (cr_id r = 0 \/ has_id (cr_id r) acc = false).
+Proof.
+  induction acc as [|a acc IH]; cbn [app uniq].
+  - unfold has_id; cbn. tauto.
+  - rewrite IH. rewrite has_id_app. unfold has_id at 2. cbn [existsb]. rewrite orb_false_r.
+    unfold has_id at 3. cbn [existsb]. fold (has_id (cr_id r) acc).
+    split.
+    + intros [[H0|H0] [H1 H2]].
+      * repeat split; try tauto. destruct H2 as [H2|H2]; [left; exact H2|].
+        destruct (N.eqb_spec (cr_id a) (cr_id r)) as [E|E]; [left; congruence|right; exact H2].
+      * apply orb_false_iff in H0 as [H0 H0']. repeat split; try tauto.
+        destruct H2 as [H2|H2]; [left; exact H2|]. right. rewrite H2, orb_false_r.
+        apply N.eqb_neq. apply N.eqb_neq in H0'. congruence.
+    + intros [[[H0|H0] H1] [H2|H2]]; repeat split; try tauto.
+      * apply orb_false_iff in H2 as [H2 H2']. tauto.
+      * destruct (N.eqb_spec (cr_id r) (cr_id a)) as [E|E].
+        -- left. congruence.
+        -- right. rewrite H0. cbn. apply N.eqb_neq. exact E.
+      * apply orb_false_iff in H2 as [H2 H2']. right. rewrite H0. cbn.
+        apply N.eqb_neq. apply N.eqb_neq in H2. congruence.
+Qed.
+
+Lemma uniq_app_l a b : uniq (a ++ b) -> uniq a.
+Proof.
+  induction a as [|x a IH]; cbn [app uniq]; [tauto|]. intros [H1 H2]. split; [|apply IH; exact H2].
+  destruct H1 as [H1|H1]; [left; exact H1|right]. rewrite has_id_app in H1. apply orb_false_iff in H1. tauto.
+Qed.
+
+Lemma compile_from_closed dflt items : forall acc rs,
+  compile_from dflt items acc = Some rs -> rs = acc ++ map (compile_item dflt) items.
+Proof.
+  induction items as [|it items IH]; intros acc rs H; cbn [compile_from map] in *.
+  - inversion H. rewrite app_nil_r. reflexivity.
+  - destruct (negb (cr_id (compile_item dflt it) =? 0) && has_id (cr_id (compile_item dflt it)) acc); [discriminate|].
+    apply IH in H. rewrite H, <- app_assoc. reflexivity.
+Qed.
+
+Lemma compile_from_uniq dflt items : forall acc rs,
+  uniq acc -> compile_from dflt items acc = Some rs -> uniq rs.
+Proof.
+  induction items as [|it items IH]; intros acc rs Hu H; cbn [compile_from] in *.
+  - inversion H; subst; exact Hu.
+  - destruct (negb (cr_id (compile_item dflt it) =? 0) && has_id (cr_id (compile_item dflt it)) acc) eqn:E; [discriminate|].
+    eapply IH; [|exact H]. apply uniq_snoc. split; [exact Hu|].
+    apply andb_false_iff in E as [E|E]; [left|right; exact E].
+    apply negb_false_iff in E. apply N.eqb_eq; exact E.
+Qed.
+
+Lemma compile_from_ok dflt items : forall acc,
+  uniq (acc ++ map (compile_item dflt) items) ->
+  compile_from dflt items acc = Some (acc ++ map (compile_item dflt) items).
+Proof.
+  induction items as [|it items IH]; intros acc Hu; cbn [compile_from map] in *.
+  - rewrite app_nil_r. reflexivity.
+  - assert (uniq ((acc ++ [compile_item dflt it]) ++ map (compile_item dflt) items)) as Hu'
+      by (rewrite <- app_assoc; exact Hu).
+    pose proof (uniq_app_l _ _ Hu') as Hs. apply uniq_snoc in Hs as [_ Hs].
+    replace (negb (cr_id (compile_item dflt it) =? 0) && has_id (cr_id (compile_item dflt it)) acc) with false.
+    + rewrite (IH _ Hu'), <- app_assoc. reflexivity.
+    + symmetry. destruct Hs as [Hs|Hs]; [rewrite Hs; reflexivity|rewrite Hs; apply andb_false_r].
+Qed.
+
+Lemma compile_closed dflt src c : cf_compile dflt src = Some c -> c = map (compile_item dflt) src.
+Proof. intro H. apply compile_from_closed in H. exact H. Qed.
+
+Lemma compile_uniq dflt src c : cf_compile dflt src = Some c -> uniq c.
+Proof. intro H. eapply compile_from_uniq; [|exact H]. exact I. Qed.
+
+Lemma compile_ok dflt src : uniq (map (compile_item dflt) src) -> cf_compile dflt src = Some (map (compile_item dflt) src).
+Proof. intro H. apply (compile_from_ok dflt src []). exact H. Qed.
+
+Lemma has_id_filter id p rs : has_id id (filter p rs) = true -> has_id id rs = true.
+Proof.
+  intro H. apply has_id_in in H as [r [Hr E]]. apply filter_In in Hr as [Hr _].
+  unfold has_id. apply existsb_exists. exists r. split; [exact Hr|apply N.eqb_eq; exact E].
+Qed.
+
+Lemma uniq_filter p rs : uniq rs -> uniq (filter p rs).
+Proof.
+  induction rs as [|r t IH]; cbn [filter uniq]; [tauto|]. intros [H1 H2].
+  destruct (p r); cbn [uniq]; [|apply IH; exact H2]. split; [|apply IH; exact H2].
+  destruct H1 as [H1|H1]; [left; exact H1|right].
+  destruct (has_id (cr_id r) (filter p t)) eqn:E; [|reflexivity]. apply has_id_filter in E. congruence.
+Qed.
+
+Lemma has_id_map g id rs : (forall r, cr_id (g r) = cr_id r) -> has_id id (map g rs) = has_id id rs.
+Proof.
+  intro Hg. unfold has_id. induction rs as [|r t IH]; cbn [map existsb]; [reflexivity|].
+  rewrite Hg, IH. reflexivity.
+Qed.
+
+Lemma uniq_map g rs : (forall r, cr_id (g r) = cr_id r) -> uniq rs -> uniq (map g rs).
+Proof.
+  intro Hg. induction rs as [|r t IH]; cbn [map uniq]; [tauto|]. intros [H1 H2].
+  rewrite Hg, (has_id_map g _ t Hg). split; [exact H1|apply IH; exact H2].
+Qed.
+
+(* ================= removal ================= *)
+
+Lemma del_first_filter n rs : n <> 0 -> uniq rs ->
+  del_first n rs = filter (fun r => negb (cr_id r =? n)) rs.
+Proof.
+  intros Hn. induction rs as [|r t IH]; cbn [del_first filter uniq]; [reflexivity|]. intros [H1 H2].
+  destruct (N.eqb_spec (cr_id r) n) as [E|E]; cbn [negb].
+  - symmetry. apply filter_all. intros x Hx. apply negb_true_iff. apply N.eqb_neq.
+    destruct H1 as [H1|H1]; [congruence|]. rewrite E in H1. eapply has_id_false_in; eassumption.
+  - rewrite IH by exact H2. reflexivity.
+Qed.
+
+Lemma rm_specs_filter l : forall rs rs',
+  forallb spec_zero_free l = true -> uniq rs -> rm_specs l rs = Some rs' ->
+  rs' = filter (fun r => negb (specs_have l (cr_id r))) rs.
+Proof.
+  induction l as [|sp l IH]; intros rs rs' Hz Hu H; cbn [rm_specs forallb] in *.
+  - inversion H; subst. symmetry. apply filter_all. reflexivity.
+  - apply andb_true_iff in Hz as [Hz1 Hz].
+    assert (forall rs1, uniq rs1 -> rm_specs l rs1 = Some rs' ->
+            rs1 = filter (fun r => negb (spec_has sp (cr_id r))) rs ->
+            rs' = filter (fun r => negb (specs_have (sp :: l) (cr_id r))) rs) as K.
+    { intros rs1 Hu1 H1 E. rewrite (IH _ _ Hz Hu1 H1), E, filter_filter.
+      apply filter_ext'. intros x _. unfold specs_have. cbn [existsb]. rewrite negb_orb. reflexivity. }
+    destruct sp as [n|a b].
+    + assert (n <> 0) as Hn.
+      { unfold spec_zero_free, spec_has in Hz1. apply negb_true_iff in Hz1. apply N.eqb_neq in Hz1. congruence. }
+      rewrite (del_first_filter n rs Hn Hu) in H.
+      eapply K; [|exact H|reflexivity]. apply uniq_filter; exact Hu.
+    + destruct (b <? a); [discriminate|].
+      eapply K; [|exact H|reflexivity]. apply uniq_filter; exact Hu.
+Qed.
+
+Lemma compile_item_id dflt it :
+  cr_id (compile_item dflt it) = match it with SRule id _ _ _ => id | SMarker _ => 0 end.
+Proof. destruct it; reflexivity. Qed.
+
+(* ---- metadata of a compiled link in closed form ---- *)
+
+Definition tags_of (acts : list action) : list bytes := src_tags acts.
+
+Lemma fold_meta_tags acts : forall l, cl_tags (fold_left meta_step acts l) = cl_tags l ++ src_tags acts.
+Proof.
+  induction acts as [|a acts IH]; intro l; cbn [fold_left src_tags]; [rewrite app_nil_r; reflexivity|].
+  rewrite IH. destruct a; cbn [meta_step cl_tags]; try reflexivity. rewrite <- app_assoc. reflexivity.
+Qed.
+
+Lemma fold_meta_msg acts : forall l, cl_msg (fold_left meta_step acts l) = src_msg acts (cl_msg l).
+Proof.
+  induction acts as [|a acts IH]; intro l; cbn [fold_left src_msg]; [reflexivity|].
+  rewrite IH. destruct a; reflexivity.
+Qed.
+
+Lemma act_step_tags l a : cl_tags (act_step l a) = cl_tags l.
+Proof. destruct a; reflexivity. Qed.
+Lemma act_step_msg l a : cl_msg (act_step l a) = cl_msg l.
+Proof. destruct a; reflexivity. Qed.
+
+Lemma fold_act_tags acts : forall l, cl_tags (fold_left act_step acts l) = cl_tags l.
+Proof. induction acts as [|a acts IH]; intro l; cbn [fold_left]; [reflexivity|]. rewrite IH. apply act_step_tags. Qed.
+Lemma fold_act_msg acts : forall l, cl_msg (fold_left act_step acts l) = cl_msg l.
+Proof. induction acts as [|a acts IH]; intro l; cbn [fold_left]; [reflexivity|]. rewrite IH. apply act_step_msg. Qed.
+
+Lemma apply_actions_tags d acts l : cl_tags (apply_actions d acts l) = cl_tags l ++ src_tags acts.
+Proof. unfold apply_actions. rewrite fold_act_tags. apply fold_meta_tags. Qed.
+Lemma apply_actions_msg d acts l : cl_msg (apply_actions d acts l) = src_msg acts (cl_msg l).
+Proof. unfold apply_actions. rewrite fold_act_msg. apply fold_meta_msg. Qed.
+
+Lemma compile_link_tags d h : cl_tags (compile_link d h) = src_tags (ls_actions h).
+Proof. unfold compile_link. rewrite apply_actions_tags. reflexivity. Qed.
+Lemma compile_link_msg d h : cl_msg (compile_link d h) = src_msg (ls_actions h) None.
+Proof. unfold compile_link. rewrite apply_actions_msg. reflexivity. Qed.
+
+(* ---- C17_remove_equiv ---- *)
+
+Definition is_remove (d : directive) : bool :=
+  match d with DRemoveById _ | DRemoveByTag _ | DRemoveByMsg _ => true | _ => false end.
+
+Lemma remove_structural dflt src c d c' :
+  cf_compile dflt src = Some c -> is_remove d = true -> zero_free d = true ->
+  cf_apply d c = Some c' -> cf_compile dflt (cf_rewrite d src) = Some c'.
+Proof.
+  intros Hc Hr Hz Ha. pose proof (compile_uniq _ _ _ Hc) as Hu. apply compile_closed in Hc. subst c.
+  assert (forall (p : crule -> bool) (q : item_src -> bool),
+            (forall it, In it src -> p (compile_item dflt it) = q it) ->
+            c' = filter p (map (compile_item dflt) src) ->
+            cf_compile dflt (filter q src) = Some c') as K.
+  { intros p q Hpq E. rewrite (map_filter_comm _ p q src Hpq) in E. subst c'.
+    apply compile_ok. rewrite <- (map_filter_comm _ p q src Hpq). apply uniq_filter. exact Hu. }
+  destruct d as [l|t|m| | |]; try discriminate; cbn [cf_apply cf_rewrite zero_free] in *.
+  - destruct l as [|sp l]; [discriminate|].
+    eapply K; [|eapply rm_specs_filter; eassumption].
+    intros it _. rewrite compile_item_id. destruct it as [id ph h ch|nm]; cbn [src_keep]; [reflexivity|].
+    (* a marker has id 0, not covered by a zero-free list *)
+    f_equal. clear -Hz. induction (sp :: l) as [|s r IH]; [reflexivity|]. cbn [forallb specs_have existsb] in *.
+    apply andb_true_iff in Hz as [H1 H2]. unfold specs_have in IH. rewrite (IH H2), orb_false_r.
+    unfold spec_zero_free in H1. apply negb_true_iff in H1. exact H1.
+  - inversion Ha; subst c'. eapply K; [|reflexivity].
+    intros it _. destruct it as [id ph h ch|nm]; cbn [compile_item src_keep cr_head marker_rule empty_link cl_tags mem_bytes negb].
+    + rewrite compile_link_tags. reflexivity.
+    + reflexivity.
+  - inversion Ha; subst c'. eapply K; [|reflexivity].
+    intros it _. destruct it as [id ph h ch|nm]; cbn [compile_item src_keep cr_head marker_rule empty_link cl_msg opt_bytes_is negb].
+    + rewrite compile_link_msg. reflexivity.
+    + reflexivity.
 Qed.
